@@ -29,7 +29,8 @@ META = {
     "note": "Trusted: Coq kernel; extraction (ExtrOcamlBasic) + OCaml; harness/c18_impl.cpp (recording engine replaces the "
             "transport; private members reached with #define private public); generator tools/props/c18.py. Modelled not "
             "verified: std::vector/string semantics, the mutexes (_wsMutex/_dataMutex) as atomic sections, the HTTP upgrade "
-            "handshake (not modelled), random mask key generation (any key).",
+            "handshake (not in the Coq model: the client side is run in the harness against a Python oracle - valid / refused / "
+            "never-ending responses, 64 KiB cap - tested, not proved), random mask key generation (any key).",
 }
 
 
@@ -389,7 +390,55 @@ def build_cases(ctx):
                     st[rng.randrange(len(st))] = rng.getrandbits(8)
             chunks = split_at(bytes(st), [rng.randint(1, max(1, len(st) - 1)) for _ in range(rng.randint(0, 3))])
         add(chunks_case(role, maxsz, chunks), kind="hostile", role=role, maxsz=maxsz)
+    # 8. the client's HTTP upgrade response (not modelled in Coq; judged by upgrade_oracle): valid 101 responses cut
+    #    anywhere, wrong status / wrong accept value, and header blocks that never end (must be refused at 64 KiB)
+    ACCEPT = b"s3pPLMBiTxaQ9kYGzzhZRbK+xOo="
+    for i in range(24 if not thorough else 300):
+        r = rng.random()
+        proto = rng.choice([b"", b"chat", b"v1.json"])
+        extra = b"".join(b"X-%s: %s\r\n" % (rand_text(rng, 3), rand_text(rng, rng.randint(0, 30))) for _ in range(rng.randint(0, 3)))
+        if r < 0.45:
+            resp = b"HTTP/1.1 101 Switching Protocols\r\nUpgrade: websocket\r\nConnection: Upgrade\r\n" + extra + \
+                   b"Sec-WebSocket-Accept: " + ACCEPT + b"\r\n" + (b"Sec-WebSocket-Protocol: " + proto + b"\r\n" if proto else b"") + b"\r\n"
+        elif r < 0.6:
+            resp = b"HTTP/1.1 " + rng.choice([b"200 OK", b"400 Bad Request", b"101x"]) + b"\r\n" + extra + b"\r\n"
+        elif r < 0.75:
+            resp = b"HTTP/1.1 101 Switching Protocols\r\n" + extra + b"Sec-WebSocket-Accept: " + rng.choice([b"AAAA", ACCEPT[:-1], b""]) + b"\r\n\r\n"
+        else:
+            resp = b"HTTP/1.1 101 Switching Protocols\r\n" + b"X-Pad: " + b"a" * rng.choice([70000, 140000])
+        cuts = [rng.randint(1, max(1, len(resp) - 1)) for _ in range(rng.randint(0, 3))]
+        chunks = split_at(resp, cuts)
+        if len(resp) > 65536:
+            chunks = [resp[j:j + 30000] for j in range(0, len(resp), 30000)] + [b"b" * 5000]
+        add("RU 1024 " + ";".join("F:" + hx(c) for c in chunks), kind="upgrade", expect=upgrade_oracle(chunks))
     return cases
+
+
+def upgrade_oracle(chunks):
+    """what WebSocketClient must do with its HTTP upgrade response: (events, bytes kept, alive)"""
+    buf, evs = b"", []
+    for c in chunks:
+        buf += c
+        end = buf.find(b"\r\n\r\n")
+        if end < 0:
+            if len(buf) > 65536:
+                return ["e"], 0, "0"
+            continue
+        if not buf.startswith(b"HTTP/1.1 101"):
+            return ["e"], 0, "0"
+        hdr = buf[:end]
+        val = b""
+        p = hdr.find(b"Sec-WebSocket-Accept:")
+        if p >= 0:
+            val = hdr[p + 21:].split(b"\r\n", 1)[0].strip(b" \t")
+        if val != b"s3pPLMBiTxaQ9kYGzzhZRbK+xOo=":
+            return ["e"], 0, "0"
+        proto = b""
+        p = hdr.find(b"Sec-WebSocket-Protocol:")
+        if p >= 0:
+            proto = hdr[p + 23:].split(b"\r\n", 1)[0].strip(b" \t")
+        return ["o:" + hx(proto)], 0, "1"
+    return [], len(buf), "1"
 
 
 # ---------------------------------------------------------------------- predicates
@@ -515,6 +564,18 @@ def evaluate(ctx, v, cases, impl, model):
                     stats["nontrivial"].add(line)
             elif evs:
                 stats["nontrivial"].add(line)
+        elif k == "upgrade" and not failed_here:
+            pr = parse_R(ri)
+            evs_e, buf_e, alive_e = meta["expect"]
+            if pr is None or (pr[0], pr[1], pr[3]) != (evs_e, buf_e, alive_e):
+                sig = "client-upgrade-response-unbounded" if pr and pr[1] > 65536 else "client-upgrade-handshake"
+                v.property_failure(sig, "WebSocketClient and the HTTP upgrade response: %s, expected events=%s buf=%d alive=%s "
+                                   "(a header block that never ends must be refused at 64 KiB, a failed upgrade reads nothing more)"
+                                   % (ri[-120:], evs_e, buf_e, alive_e), line[:400], ri[-300:])
+                failed_here = True
+            else:
+                stats["nontrivial"].add(line)
+            continue
         elif k in ("parse-hostile", "parse-mut", "closepayload") and not failed_here:
             if ri.startswith("P "):
                 stats["nontrivial"].add(line)
